@@ -128,7 +128,7 @@ def cases(tier, seed):
                 cs.append({'gen': 'neg', 'row': 'bad-index', 'form': form, 'N': N})
     # element-count mismatch, invalid permutations, size mismatches in argument lists
     for op in ('reshape', 'reshape_ttm_rows', 'reshape_ttm_cols', 'qtt_to_tens_sizes', 'to_qtt_size3', 'to_qtt_size6', 'to_qtt_ttm_nonsquare', 'to_qtt_ttm_size3', 'permute_dup', 'permute_short', 'permute_long',
-               'mprod_size', 'mprod_lists', 'cat_mode_mismatch_before', 'cat_mode_mismatch_after', 'cat_mode_mismatch_both', 'cat_order', 'pad_too_many', 'dot_axis_size', 'dot_axis_count', 'dot_b_longer',
+               'mprod_size', 'mprod_lists', 'mprod_repeated_mode', 'cat_mode_mismatch_before', 'cat_mode_mismatch_after', 'cat_mode_mismatch_both', 'cat_order', 'pad_too_many', 'dot_axis_size', 'dot_axis_count', 'dot_b_longer',
                'ctor_shape_numel', 'ctor_ttm_shape_numel', 'random_bad_R', 'set_core_rank', 'set_core_dims', 'mask_dense'):
         for rep in range(k):
             d = rng.choice((2, 3))
@@ -311,6 +311,8 @@ def build(case, g):
             'permute_dup': (DOC, lambda: tt.permute(x, [0] * d)), 'permute_short': (DOC, lambda: tt.permute(x, list(range(d - 1)))), 'permute_long': (DOC, lambda: tt.permute(x, list(range(d + 1)))),
             'mprod_size': (DOC, lambda: x.mprod(torch.ones(2, N[p] + 1, dtype=torch.float64), p)),
             'mprod_lists': (DOC, lambda: x.mprod([torch.ones(2, N[0], dtype=torch.float64)], 0)),
+            # the same mode twice: after the first matrix the mode has size 1, the second matrix (k x n, n > 1) no longer fits
+            'mprod_repeated_mode': (DOC, lambda: x.mprod([torch.ones(1, N[p], dtype=torch.float64), torch.ones(3, N[p], dtype=torch.float64)], [p, p])),
             'cat_mode_mismatch_before': (DOC, (lambda: tt.cat((mk([2, 2, 2], g), mk([3, 2, 2], g)), 1))),
             'cat_mode_mismatch_after': (DOC, (lambda: tt.cat((mk([2, 2, 2], g), mk([2, 2, 3], g)), 1))),
             'cat_mode_mismatch_both': (DOC, (lambda: tt.cat((mk([2, 2, 2], g), mk([3, 2, 3], g)), 1))),
